@@ -1,11 +1,217 @@
 (* C08 property theorems.  This file contains only statements, each closed by [exact] of a lemma
-   proved elsewhere, with Print Assumptions underneath. *)
+   proved in ProofsTrail.v / ProofsMisc.v / ProofsMinsep.v, with Print Assumptions underneath, and
+   Examples showing that the hypotheses are satisfiable by non-trivial objects.
+
+   Vocabulary (Base/Graph.v, C08/Spec.v):
+     wf_graph g    node list duplicate-free, every edge joins two listed nodes
+     acyclic g     no edge (u,v) with a directed path v ->* u
+     dconnected g Z x y   there is a trail (list of nodes, consecutive ones adjacent) from x to y on
+                   which every interior collider has a descendant-or-self in Z and every interior
+                   non-collider is outside Z                                   (path-based definition)  *)
 From Coq Require Import List Bool Arith.
-From PV Require Import Base.Reach Base.Graph C08.Model C08.Spec.
+From PV Require Import Base.Reach Base.Graph C08.Model C08.Spec
+  C08.ProofsTrail C08.ProofsMisc C08.ProofsMinsep.
 Import ListNotations.
 
-(* _get_ancestors_of / get_ancestral_graph: exactly the nodes with a directed path into the set *)
+(* ================================================================== 1. reachability = active trails *)
+
+(* DAG.active_trail_nodes(start=x, observed=Z, include_latents=True)[x], for x not observed, is exactly
+   the set of unobserved nodes d-connected to x given Z.  Both directions, every DAG, no size bound. *)
+Theorem C08_reach_iff_active_trail : forall g x Z y,
+  wf_graph g -> acyclic g -> In x (nodes g) -> ~ In x Z ->
+  (In y (active_trail_nodes g x Z) <-> ~ In y Z /\ dconnected g Z x y).
+Proof. exact reach_iff_active_trail. Qed.
+Print Assumptions C08_reach_iff_active_trail.
+
+(* documented convention of the code: an observed start node has no active trail nodes at all *)
+Theorem C08_start_observed : forall g x Z, In x Z -> active_trail_nodes g x Z = [].
+Proof. exact start_observed. Qed.
+Print Assumptions C08_start_observed.
+
+(* the (node, direction) worklist terminates within the model's fuel: the [None => []] branch of
+   [bb_states] is unreachable on well-formed inputs (universe = nodes x {Up, Down}) *)
+Theorem C08_worklist_terminates : forall g Z x, wf_graph g -> In x (nodes g) ->
+  search st st_eqb (bb_next g Z (anc_of g Z)) (2 * length (nodes g) + 2) [(x, Up)] [] <> None.
+Proof. exact bb_states_no_fuel_exhaustion. Qed.
+Print Assumptions C08_worklist_terminates.
+
+(* same for the ancestor worklist (_get_ancestors_of) *)
+Theorem C08_ancestors_terminates : forall g src, wf_graph g ->
+  exists r, search node Nat.eqb (parents g) (length (nodes g) + length src) src [] = Some r.
+Proof. exact search_parents_total. Qed.
+Print Assumptions C08_ancestors_terminates.
+
+(* the path-based relation is symmetric, hence so are the answers *)
+Theorem C08_dconnected_sym : forall g Z x y, dconnected g Z x y -> dconnected g Z y x.
+Proof. exact dconnected_sym. Qed.
+Print Assumptions C08_dconnected_sym.
+
+(* ================================================================== 2. wrappers *)
+
+(* DAG.is_dconnected(x, y, observed=Z) *)
+Theorem C08_is_dconnected_iff : forall g x y Z,
+  wf_graph g -> acyclic g -> In x (nodes g) -> ~ In x Z ->
+  (is_dconnected g x y Z = true <-> ~ In y Z /\ dconnected g Z x y).
+Proof. exact is_dconnected_iff. Qed.
+Print Assumptions C08_is_dconnected_iff.
+
+(* include_latents=False only filters the latent nodes out of the answer *)
+Theorem C08_include_latents : forall g lat x Z y,
+  In y (active_trail_nodes_obs g lat x Z) <-> In y (active_trail_nodes g x Z) /\ ~ In y lat.
+Proof. exact include_latents. Qed.
+Print Assumptions C08_include_latents.
+
+(* _get_ancestors_of: exactly the nodes with a directed path into the set *)
 Theorem C08_ancestors : forall g src x, wf_graph g ->
   (In x (anc_of g src) <-> exists s, In s src /\ dpath g x s).
 Proof. exact anc_of_spec. Qed.
 Print Assumptions C08_ancestors.
+
+(* get_ancestral_graph(ns): the subgraph induced on the ancestors-or-self of ns *)
+Theorem C08_ancestral_graph : forall g ns, wf_graph g ->
+  (forall n, In n (nodes (ancestral_graph g ns)) <-> In n (nodes g) /\ exists s, In s ns /\ dpath g n s) /\
+  (forall u v, In (u, v) (edges (ancestral_graph g ns)) <->
+               In (u, v) (edges g) /\ exists s, In s ns /\ dpath g v s).
+Proof.
+  intros g ns Hw. split; [intros n; exact (ancestral_nodes g ns n Hw)|intros u v; exact (ancestral_edges g ns u v Hw)].
+Qed.
+Print Assumptions C08_ancestral_graph.
+
+(* d-connection given Z can be decided inside any ancestor-closed induced subgraph that contains
+   x, y and Z; in particular in get_ancestral_graph([x, y] + Z) *)
+Theorem C08_ancestral_reduction : forall g ns x y Z,
+  wf_graph g -> In x (nodes g) ->
+  In x (anc_of g ns) -> In y (anc_of g ns) -> incl Z (anc_of g ns) ->
+  is_dconnected (ancestral_graph g ns) x y Z = is_dconnected g x y Z.
+Proof.
+  intros g ns x y Z Hw Hx Hxk Hyk Hi.
+  exact (is_dconnected_induced g _ x y Z Hw (anc_of_up_closed g ns Hw) Hi Hx Hxk Hyk).
+Qed.
+Print Assumptions C08_ancestral_reduction.
+
+(* get_markov_blanket(n): parents, children and the children's other parents *)
+Theorem C08_markov_blanket : forall g n y,
+  In y (markov_blanket g n) <->
+  y <> n /\ (In (y, n) (edges g) \/ In (n, y) (edges g) \/
+             exists c, In (n, c) (edges g) /\ In (y, c) (edges g)).
+Proof. exact markov_blanket_spec. Qed.
+Print Assumptions C08_markov_blanket.
+
+(* moralize(): u - v is an (undirected) edge iff u, v are distinct and adjacent or share a child *)
+Theorem C08_moral_edges : forall g u v, wf_graph g -> acyclic g -> NoDup (edges g) ->
+  ((In (u, v) (moral_edges g) \/ In (v, u) (moral_edges g)) <->
+   u <> v /\ (adj g u v \/ exists c, In (u, c) (edges g) /\ In (v, c) (edges g))).
+Proof. exact moral_edges_spec. Qed.
+Print Assumptions C08_moral_edges.
+
+(* local_independencies(v): the asserted set is (nodes not reachable from v) minus parents(v) ... *)
+Theorem C08_nondescendants : forall g v x, wf_graph g ->
+  (In x (nondesc_minus_parents g v) <->
+   In x (nodes g) /\ ~ dpath g v x /\ ~ In (x, v) (edges g)).
+Proof. exact nondesc_spec. Qed.
+Print Assumptions C08_nondescendants.
+
+(* ... and every such assertion (v _|_ x | parents(v)) is a d-separation of the path definition *)
+Theorem C08_local_markov_sound : forall g v x, wf_graph g -> acyclic g -> In v (nodes g) ->
+  In x (nondesc_minus_parents g v) -> ~ dconnected g (parents g v) v x.
+Proof. exact local_markov_sound. Qed.
+Print Assumptions C08_local_markov_sound.
+
+(* ================================================================== 3. minimal_dseparator *)
+
+(* ValueError exactly for adjacent end points *)
+Theorem C08_minsep_adjacent : forall g lat x y order,
+  minimal_dseparator g lat x y order = None <-> adjacent g x y = true.
+Proof. exact minsep_adjacent_iff. Qed.
+Print Assumptions C08_minsep_adjacent.
+
+(* A returned separator s (any latent set, any iteration order of the removal loop): contains no
+   latent node and neither end point, d-separates x and y IN g (path definition), and removing any
+   single member reconnects them. *)
+Theorem C08_minsep_post : forall g lat x y order s,
+  wf_graph g -> acyclic g -> In x (nodes g) ->
+  minimal_dseparator g lat x y order = Some (Some s) ->
+  (forall u, In u s -> ~ In u lat) /\ ~ In x s /\ ~ In y s /\
+  ~ dconnected g s x y /\
+  (forall u, In u s -> dconnected g (remove1 u s) x y).
+Proof. exact minsep_post. Qed.
+Print Assumptions C08_minsep_post.
+
+(* the same post-condition as the code evaluates it: with its own is_dconnected on the ancestral graph *)
+Theorem C08_minsep_post_ancestral : forall g lat x y order s,
+  wf_graph g -> acyclic g -> In x (nodes g) ->
+  minimal_dseparator g lat x y order = Some (Some s) ->
+  let ag := ancestral_graph g [x; y] in
+  (forall u, In u s -> ~ In u lat) /\
+  incl s (anc_of g [x; y]) /\ ~ In x s /\ ~ In y s /\
+  is_dconnected ag x y s = false /\
+  (forall u, In u s -> is_dconnected ag x y (remove1 u s) = true).
+Proof. exact minsep_post_b. Qed.
+Print Assumptions C08_minsep_post_ancestral.
+
+(* the reason one greedy pass suffices: inside An({x,y}) (every node with a parent is an ancestor of
+   x or y) enlarging the observed set never creates a connection *)
+Theorem C08_dconnected_antitone_in_ancestral : forall g x y Z Z',
+  wf_graph g -> In x (nodes g) ->
+  (forall p n, In (p, n) (edges g) -> dpath g n x \/ dpath g n y) ->
+  incl Z Z' -> is_dconnected g x y Z' = true -> is_dconnected g x y Z = true.
+Proof. exact is_dconnected_mono. Qed.
+Print Assumptions C08_dconnected_antitone_in_ancestral.
+
+(* without latent variables a separator is returned for every pair of distinct non-adjacent nodes *)
+Theorem C08_minsep_exists_no_latents : forall g x y order,
+  wf_graph g -> acyclic g -> In x (nodes g) -> In y (nodes g) -> x <> y ->
+  adjacent g x y = false ->
+  exists s, minimal_dseparator g [] x y order = Some (Some s).
+Proof. exact minsep_exists. Qed.
+Print Assumptions C08_minsep_exists_no_latents.
+
+(* the latent-replacement loop ends latent-free within the model's fuel: more fuel changes nothing *)
+Theorem C08_minsep_latent_loop_terminates : forall g lat sep k, wf_graph g -> acyclic g ->
+  replace_latents (S (length (nodes g)) + k) g lat sep = replace_latents (S (length (nodes g))) g lat sep.
+Proof. exact replace_latents_enough_fuel. Qed.
+Print Assumptions C08_minsep_latent_loop_terminates.
+
+(* ================================================================== Examples: hypotheses are satisfiable *)
+
+(* the collider 0 -> 2 <- 1 with a descendant 2 -> 3 *)
+Definition ex_collider : digraph := {| nodes := [0; 1; 2; 3]; edges := [(0, 2); (1, 2); (2, 3)] |}.
+Example ex_collider_dag : wf_graph ex_collider /\ acyclic ex_collider.
+Proof. apply dag_dec. vm_compute. reflexivity. Qed.
+(* nothing observed: the collider blocks 0 from 1 *)
+Example ex_collider_blocked : active_trail_nodes ex_collider 0 [] = [3; 2; 0].
+Proof. vm_compute. reflexivity. Qed.
+(* observing the collider's descendant 3 opens the trail 0 -> 2 <- 1 *)
+Example ex_collider_opened : In 1 (active_trail_nodes ex_collider 0 [3]) /\ ~ In 0 [3].
+Proof. split; [vm_compute; tauto|simpl; intros [H|[]]; discriminate]. Qed.
+Example ex_collider_trail : dconnected ex_collider [3] 0 1.
+Proof.
+  destruct ex_collider_dag as [Hw Ha].
+  apply (C08_reach_iff_active_trail ex_collider 0 [3] 1 Hw Ha); [simpl; auto| |exact (proj1 ex_collider_opened)].
+  simpl; intros [H|[]]; discriminate.
+Qed.
+Example ex_collider_start_observed : active_trail_nodes ex_collider 2 [2] = [].
+Proof. vm_compute. reflexivity. Qed.
+Example ex_collider_blanket : markov_blanket ex_collider 0 = [2; 1].
+Proof. vm_compute. reflexivity. Qed.
+Example ex_collider_moral : In (0, 1) (moral_edges ex_collider) /\ NoDup (edges ex_collider).
+Proof. split; [vm_compute; tauto|apply NoDup_map_inv with (f := fun e => fst e * 10 + snd e); apply nodupb_spec; vm_compute; reflexivity]. Qed.
+Example ex_collider_local : nondesc_minus_parents ex_collider 0 = [1].
+Proof. vm_compute. reflexivity. Qed.
+
+(* minimal separators: 0 -> 1 -> 2, 0 -> 3, query (2, 3) *)
+Definition ex_chain : digraph := {| nodes := [0; 1; 2; 3; 4]; edges := [(0, 1); (1, 2); (0, 3); (2, 4); (3, 4)] |}.
+Example ex_chain_dag : wf_graph ex_chain /\ acyclic ex_chain.
+Proof. apply dag_dec. vm_compute. reflexivity. Qed.
+(* no latents: parents {1, 0}; 1 is redundant or 0 is, depending on the iteration order *)
+Example ex_chain_minsep : minimal_dseparator ex_chain [] 2 3 [1; 0] = Some (Some [0]) /\
+                          minimal_dseparator ex_chain [] 2 3 [0; 1] = Some (Some [1]).
+Proof. vm_compute. split; reflexivity. Qed.
+(* 1 latent: it is replaced by its parent 0 *)
+Example ex_chain_minsep_latent : minimal_dseparator ex_chain [1] 2 3 [] = Some (Some [0]).
+Proof. vm_compute. reflexivity. Qed.
+(* 0 latent: no separator of observed nodes exists, the code returns None *)
+Example ex_chain_minsep_none : minimal_dseparator ex_chain [0] 2 3 [] = Some None.
+Proof. vm_compute. reflexivity. Qed.
+Example ex_chain_adjacent : minimal_dseparator ex_chain [] 0 1 [] = None /\ adjacent ex_chain 2 3 = false.
+Proof. vm_compute. split; reflexivity. Qed.
